@@ -123,6 +123,12 @@ def check_cases(ctx, cases):
             d2 = ImmutableDict(order2)       # from an iterable of pairs, other insertion order
             d3 = ImmutableDict(d1)
             before = (dict(d1.items()), hash(d1))
+            import collections as _c
+
+            d4 = ImmutableDict(_c.OrderedDict(items))
+            d5 = ImmutableDict(_c.OrderedDict(order2))
+            if not (d4 == d5 and d5 == d4 and d4 == d1 and hash(d4) == hash(d5) == hash(d1)) or d4 != d5:
+                ctx.fail(case, "frozen mappings built from OrderedDicts with the same items in another order compare/hash differently", "frozenmap-order-dependent:ordered-dict")
             if not (d1 == d2 and hash(d1) == hash(d2) and d1 == d3 and hash(d1) == hash(d3)):
                 ctx.fail(case, "frozen mappings with the same items compare/hash differently depending on insertion order", "frozenmap-order-dependent")
             for m in MUTATORS:
@@ -205,6 +211,30 @@ def check_cases(ctx, cases):
                                 ctx.fail(dict(case, field=fk), "two frozen mappings that compare equal have different hashes", "frozenmap-equal-but-different-hash")
                         except TypeError:
                             pass
+        # mappings of another dict type (OrderedDict, whose own == is order-sensitive), filled in two
+        # orders: the objects built from them must be equal to each other and to the plain-dict one
+        if any(isinstance(v, dict) for v in kwargs.values()):
+            import collections as _c
+
+            def od(v, rev):
+                items = list(copy.deepcopy(v).items())
+                return _c.OrderedDict(reversed(items) if rev else items)
+
+            try:
+                oa = objgen.build(name, {k: od(v, False) if isinstance(v, dict) else v for k, v in copy.deepcopy(kwargs).items()})
+                ob = objgen.build(name, {k: od(v, True) if isinstance(v, dict) else v for k, v in copy.deepcopy(kwargs).items()})
+            except (ValueError, TypeError):
+                oa = ob = None
+            if oa is not None:
+                ctx.count("channel=ordered-dict-arguments")
+                if not (oa == ob and ob == oa and oa == o and ob == o) or (oa != ob):
+                    ctx.fail(case, "objects built from equal mappings of another dict type / insertion order do not compare equal", "mapping-order-dependent-equality:" + name)
+                else:
+                    try:
+                        if len({hash(oa), hash(ob), hash(o)}) != 1:
+                            ctx.fail(case, "equal objects built from mappings of another dict type hash differently", "equal-but-different-hash:ordered-dict")
+                    except TypeError:
+                        pass
         # the same arguments with every mapping already frozen by the caller: construction must not
         # change a frozen mapping, and building twice from the same arguments gives equal objects
         fkw = {k: (ImmutableDict(copy.deepcopy(v)) if isinstance(v, dict) else v) for k, v in kwargs.items()}
